@@ -1064,3 +1064,21 @@ Proof.
   exists unsyn_cfg, unsyn_journal, r, part, dl, equity_account, unsyn_com, unsyn_col.
   split; [reflexivity|]. split; [exact E1|]. split; [exact E2|]. exact H.
 Qed.
+
+(* the hypothesis in the words of Spec/WellformedSpec.v, and its executable form *)
+Lemma postings_syntactic_b_iff dl : postings_syntactic_b dl = true <-> postings_syntactic dl.
+Proof.
+  unfold postings_syntactic_b, postings_syntactic. rewrite forallb_forall. split.
+  - intros H d p Hin. exact (H (d, p) Hin).
+  - intros H [d p] Hin. exact (H d p Hin).
+Qed.
+
+Lemma syntactic_postings dl : syntactic dl -> postings_syntactic dl.
+Proof.
+  intros H d p Hin. unfold flat_postings in Hin. apply in_concat in Hin. destruct Hin as (l & Hl & Hin).
+  apply in_map_iff in Hl. destruct Hl as (dir & <- & Hdir).
+  destruct dir as [| | | |t]; try destruct Hin.
+  apply in_map_iff in Hin. destruct Hin as (p0 & Hp0 & Hin0). inversion Hp0; subst.
+  apply (H (DTxn t) (EPost (p_acc p) (p_com p) (p_qty p)) Hdir).
+  cbn [events_of]. apply in_map_iff. exists p. split; [reflexivity|exact Hin0].
+Qed.
